@@ -4,6 +4,8 @@
 set -u
 d="$(readlink -f "$1")"; WT=/tmp/fml-own
 cd $WT && git checkout -q -- . && git clean -fdq -e target >/dev/null 2>&1
+# demos that derive the source tree from their own location must live inside the tree under test
+mkdir -p $WT/_mutant/confirm && cp -r "$d"/. $WT/_mutant/confirm/ && d=$WT/_mutant/confirm
 export CARGO_NET_OFFLINE=true
 res() { echo "{\"applies\":$1,\"tests_with_change\":\"$2\",\"demo_with_change_exit\":$3,\"demo_without_change_exit\":$4}"; }
 git apply "$d/patch.diff" || { res false - -1 -1; exit 1; }
